@@ -40,3 +40,42 @@ void h_sba_free(void) {
     if (g_case == 1) CANARY("free: small block");
     if (g_case == 2) CANARY("free: block of the parent");
 }
+
+void h_mem_acquire(void) {
+    struct aws_allocator *allocator;
+    size_t size = nondet_size_t();
+    GHOSTS();
+    void *r = s_sba_mem_acquire(allocator, size);
+    if (size <= 512) CANARY("mem_acquire: small"); else CANARY("mem_acquire: large");
+}
+void h_mem_release(void) {
+    struct aws_allocator *allocator;
+    void *ptr;
+    GHOSTS();
+    s_sba_mem_release(allocator, ptr);
+    CANARY("mem_release: returned");
+}
+void h_mem_realloc(void) {
+    struct aws_allocator *allocator;
+    void *old_ptr;
+    size_t old_size = nondet_size_t(), new_size = nondet_size_t();
+    GHOSTS();
+    void *r = s_sba_mem_realloc(allocator, old_ptr, old_size, new_size);
+    if (RA_BOTH_LARGE && new_size > old_size) CANARY("realloc: parent grows");
+    if (RA_BOTH_LARGE && new_size <= old_size) CANARY("realloc: parent shrinks");
+    if (RA_FREES && old_size > 0) CANARY("realloc: new size 0 releases");
+    if (RA_FREES && old_size == 0) CANARY("realloc: NULL block, new size 0");
+    if (RA_KEEPS && old_size > 512) CANARY("realloc: large -> small keeps the large block");
+    if (RA_KEEPS && old_size <= 512) CANARY("realloc: small shrink keeps the block");
+    if (RA_MOVES && old_size == 0) CANARY("realloc: from nothing");
+    if (RA_MOVES && old_size > 0 && old_size <= 512 && new_size > 512) CANARY("realloc: small -> large");
+    if (RA_MOVES && old_size > 0 && new_size <= 512) CANARY("realloc: small -> small (new chunk even inside one class)");
+    if (RA_MOVES && old_size == new_size && old_size > 0) CANARY("realloc: same size");
+}
+void h_mem_calloc(void) {
+    struct aws_allocator *allocator;
+    size_t num = nondet_size_t(), size = nondet_size_t();
+    GHOSTS();
+    void *r = s_sba_mem_calloc(allocator, num, size);
+    if (num * size <= 512) CANARY("calloc: small"); else CANARY("calloc: large");
+}
